@@ -208,8 +208,18 @@ def build_harness(log):
         except OSError:
             pass
         t0 = time.time()
-        rc, out = sh(["go", "build", "-tags", "verif", "-o", os.path.join(BUILD, "harness"), "."],
-                     cwd=hd, timeout=1800)
+        cmd = ["go", "build", "-tags", "verif", "-o", os.path.join(BUILD, "harness")]
+        if REPO != "/repo":
+            # development aid (VERIF_REPO=<scratch worktree of /repo>): same go.mod with the replace redirected
+            mf = os.path.join(BUILD, "harness.alt.mod")
+            with open(mf, "w") as f:
+                f.write(open(os.path.join(hd, "go.mod")).read().replace("=> /repo", "=> " + REPO))
+            try:
+                shutil.copyfile(os.path.join(hd, "go.sum"), os.path.join(BUILD, "harness.alt.sum"))
+            except OSError:
+                pass
+            cmd += ["-modfile", mf]
+        rc, out = sh(cmd + ["."], cwd=hd, timeout=1800)
         log.append("go build harness rc=%d %.1fs" % (rc, time.time() - t0))
     return rc, out
 
